@@ -71,6 +71,7 @@ From PV Require Import proofs.FloatFacts proofs.WrapFloat.
 From PV Require Import proofs.PackingFacts.
 From PV Require Import gen.GenFns proofs.SourceFacts.
 From PV Require Import model.Iter proofs.SearchFacts.
+From PV Require Import gen.GenFns proofs.SourceFacts proofs.SearchFacts.
 
 Theorem C15_F_wrap_range :
   forall x : F, is_finite (Prim2B x) = true -> (Rabs (B2R (Prim2B x)) <= 2251799813685248)%R ->
@@ -120,4 +121,11 @@ Theorem C15_positions_is_source :
     syms s.
 Proof. exact positions_is_source. Qed.
 Print Assumptions C15_positions_is_source.
+
+
+Theorem S_state_positions_are_source :
+  forall (NN : Num) (st : pstate NN), gen_relative_positions NN st = relative_positions NN st /\
+    gen_cartesian_positions NN st = cartesian_positions NN st.
+Proof. exact state_positions_are_source. Qed.
+Print Assumptions S_state_positions_are_source.
 
